@@ -314,7 +314,13 @@ func CheckC19(e *Env) int {
 	for _, v := range []vexpr{
 		{Expr: "@hidden", Type: "int"}, {Expr: "@S{hid: 1}", Type: "@S"}, {Expr: "@VS.hid", Type: "int"},
 	} {
-		add(c13Program(nid(), []c13Case{{ID: 1, V: v, Cross: true, Class: "reject"}}), "reject", "reject", "inaccessible-value")
+		for shape := 0; shape < 4; shape++ {
+			add(c13Program(nid(), []c13Case{{ID: 1, V: v, Cross: true, Class: "reject", ResShape: shape}}), "reject", "reject", fmt.Sprintf("inaccessible-value/result-shape=%d", shape))
+		}
+	}
+	for shape := 0; shape < 4; shape++ {
+		v := vexpr{Expr: "float64(x) + 0.5", Type: "float64", Param: "x int", Local: true}
+		add(c13Program(nid(), []c13Case{{ID: 1, V: v, Class: "reject", ResShape: shape}}), "reject", "reject", fmt.Sprintf("value-mentions-parameter/result-shape=%d", shape))
 	}
 	var progs []*Program
 	for _, c := range cases {
